@@ -10,7 +10,7 @@ import Mathlib.Tactic
   `Lemmas.VolVar.volvar` of `volume_variation`; IEEE rounding is covered by the correspondence check only.
     ESS       : C20_ess_bounds, C20_ess_scale_invariant, C20_ess_uniform, C20_compute_ess, C20_compute_ess_shift, C20_compute_ess_bounds
     trimming  : C20_trim_upper_set (+ C20_trim_mask_raw, C20_trim_aligned), C20_trim_normalised, C20_trim_ess,
-                C20_trim_maximal, C20_trim_terminates
+                C20_trim_maximal, C20_trim_terminates_any (C20_trim_terminates), C20_trim_bottom
     volume    : C20_volvar_nonneg, C20_volvar_weight_scale_invariant, C20_volvar_affine_invariant (full-rank guard)
 -/
 namespace Props.C20
@@ -381,10 +381,10 @@ theorem step_spec (wn sorted : List ℝ) (eT p : ℝ) (s : Step ℝ) (h : step w
     subst h
     simp
 
-/-- the loop stops at the first grid index (from the top) whose pass meets the ESS test -/
+/-- the loop stops at the first grid index (from the top) whose pass meets the ESS test, or at index 0 -/
 theorem search_spec (wn sorted : List ℝ) (eT e : ℝ) (bins i j : Nat) (s : Step ℝ)
     (h : search wn sorted eT e bins i = some (j, s)) :
-    j ≤ i ∧ step wn sorted eT (linspace0_99 bins j) = some s ∧ e ≤ s.ratio ∧
+    j ≤ i ∧ step wn sorted eT (linspace0_99 bins j) = some s ∧ (e ≤ s.ratio ∨ j = 0) ∧
     ∀ k, j < k → k ≤ i → ∃ s', step wn sorted eT (linspace0_99 bins k) = some s' ∧ s'.ratio < e := by
   induction i with
   | zero =>
@@ -392,12 +392,9 @@ theorem search_spec (wn sorted : List ℝ) (eT e : ℝ) (bins i j : Nat) (s : St
     cases hs : step wn sorted eT (linspace0_99 bins 0) with
     | none => simp [hs] at h
     | some s0 =>
-      simp only [hs] at h
-      by_cases hr : e ≤ s0.ratio
-      · simp only [ScReal.le_def, hr, if_true, Option.some.injEq, Prod.mk.injEq] at h
-        obtain ⟨rfl, rfl⟩ := h
-        exact ⟨le_refl _, hs, hr, fun k hk1 hk2 => by omega⟩
-      · simp [hr] at h
+      simp only [hs, Option.some.injEq, Prod.mk.injEq] at h
+      obtain ⟨rfl, rfl⟩ := h
+      exact ⟨le_refl _, hs, Or.inr rfl, fun k hk1 hk2 => by omega⟩
   | succ i ih =>
     unfold search at h
     cases hs : step wn sorted eT (linspace0_99 bins (i + 1)) with
@@ -407,7 +404,7 @@ theorem search_spec (wn sorted : List ℝ) (eT e : ℝ) (bins i j : Nat) (s : St
       by_cases hr : e ≤ s0.ratio
       · simp only [ScReal.le_def, hr, if_true, Option.some.injEq, Prod.mk.injEq] at h
         obtain ⟨rfl, rfl⟩ := h
-        exact ⟨le_refl _, hs, hr, fun k hk1 hk2 => by omega⟩
+        exact ⟨le_refl _, hs, Or.inl hr, fun k hk1 hk2 => by omega⟩
       · simp only [ScReal.le_def, hr, if_false] at h
         obtain ⟨h1, h2, h3, h4⟩ := ih h
         refine ⟨by omega, h2, h3, fun k hk1 hk2 => ?_⟩
@@ -415,16 +412,14 @@ theorem search_spec (wn sorted : List ℝ) (eT e : ℝ) (bins i j : Nat) (s : St
         · subst hk; exact ⟨s0, hs, not_le.mp hr⟩
         · exact h4 k hk1 (by omega)
 
-/-- the loop cannot fall through the bottom of the grid if every pass is defined and the last one (`i = 0`) passes -/
+/-- the loop always stops (at index 0 at the latest) if every pass is defined -/
 theorem search_total (wn sorted : List ℝ) (eT e : ℝ) (bins i : Nat)
-    (hdef : ∀ k, k ≤ i → ∃ s, step wn sorted eT (linspace0_99 bins k) = some s)
-    (h0 : ∀ s, step wn sorted eT (linspace0_99 bins 0) = some s → e ≤ s.ratio) :
+    (hdef : ∀ k, k ≤ i → ∃ s, step wn sorted eT (linspace0_99 bins k) = some s) :
     ∃ r, search wn sorted eT e bins i = some r := by
   induction i with
   | zero =>
     obtain ⟨s, hs⟩ := hdef 0 (le_refl _)
-    have := h0 s hs
-    exact ⟨(0, s), by simp [search, hs, this]⟩
+    exact ⟨(0, s), by simp [search, hs]⟩
   | succ i ih =>
     obtain ⟨s, hs⟩ := hdef (i + 1) (le_refl _)
     by_cases hr : e ≤ s.ratio
@@ -548,13 +543,43 @@ theorem C20_trim_normalised {σ : Type} (samples : List σ) (w : List ℝ) (e : 
   rw [hw', hf, normalise_def, sum_map_div]
   exact div_self hpos.ne'
 
-/-- **ESS guarantee.** The ESS of what is returned is at least the requested fraction of the untrimmed ESS -/
+/-- the pass at grid index 0: percentile 0 is the minimum, the mask keeps everything, the ESS ratio is exactly 1 -/
+theorem step_zero (w : List ℝ) (h0 : ∀ x ∈ w, 0 ≤ x) (hs : 0 < w.sum) (bins : Nat) (s : Step ℝ)
+    (hstep : step (normalise w) (sortAsc (normalise w)) (Sc.div Sc.one (sumSq (normalise w))) (linspace0_99 bins 0) = some s) :
+    s.mask = (normalise w).map (fun _ => true) ∧ s.wt = normalise w ∧ s.ratio = 1 := by
+  obtain ⟨h1, hnn, hq, hne⟩ := wn_facts w h0 hs
+  have hne' : sortAsc (normalise w) ≠ [] := by
+    intro h; have := (sortAsc_perm (normalise w)).length_eq; rw [h] at this
+    exact hne (List.length_eq_zero_iff.mp this.symm)
+  have hsorted := sortAsc_sorted (normalise w)
+  obtain ⟨hp, hm, hw, hratio⟩ := step_spec _ _ _ _ _ hstep
+  rw [linspace_zero] at hp
+  obtain ⟨θ, hθ, hmin⟩ := percentile_zero _ hsorted hne'
+  rw [hp] at hθ; injection hθ with hθ
+  have hmask : s.mask = (normalise w).map (fun _ => true) := by
+    rw [hm]
+    apply List.map_congr_left
+    intro x hx
+    rw [ScReal.le_def, hθ]
+    exact hmin x ((sortAsc_perm _).mem_iff.mpr hx)
+  rw [hmask, filterMask_all_true, normalise_of_sum_one _ h1] at hw
+  refine ⟨hmask, hw, ?_⟩
+  rw [hratio, hw]
+  simp only [ScReal.div_def, ScReal.one_def]
+  rw [div_self (by positivity)]
+
+/-- **ESS guarantee.** For a requested fraction `e ≤ 1` the ESS of what is returned is at least `e` times the untrimmed ESS
+    (either the stop test held, or the loop reached grid index 0 where everything is kept and the ratio is 1) -/
 theorem C20_trim_ess {σ : Type} (samples : List σ) (w : List ℝ) (e : ℝ) (bins : Nat)
-    (h0 : ∀ x ∈ w, 0 ≤ x) (hs : 0 < w.sum)
+    (h0 : ∀ x ∈ w, 0 ≤ x) (hs : 0 < w.sum) (he : e ≤ 1)
     (s' : List σ) (w' : List ℝ) (h : trim samples w e bins = some (s', w')) : e * ess w ≤ ess w' := by
   have hsum := C20_trim_normalised samples w e bins h0 hs s' w' h
   obtain ⟨j, st, _, _, hsr, _, rfl⟩ := trim_some samples w e bins s' w' h
   obtain ⟨_, hstep, hr, _⟩ := search_spec _ _ _ _ _ _ _ _ hsr
+  have hr' : e ≤ st.ratio := by
+    rcases hr with hr | rfl
+    · exact hr
+    · rw [(step_zero w h0 hs bins st hstep).2.2]; exact he
   obtain ⟨_, _, _, hratio⟩ := step_spec _ _ _ _ _ hstep
   have hw : ess w = Sc.div Sc.one (sumSq (normalise w)) := rfl
   have hw' : ess st.wt = 1 / sumSq st.wt := by
@@ -562,25 +587,26 @@ theorem C20_trim_ess {σ : Type} (samples : List σ) (w : List ℝ) (e : ℝ) (b
     rw [normalise_of_sum_one _ hsum]; simp
   rw [← hw, ← hw'] at hratio
   have hpos : 0 < ess w := lt_of_lt_of_le one_pos (C20_ess_bounds w h0 hs).1
-  rw [hratio, le_div_iff₀ hpos] at hr
-  exact hr
+  rw [hratio, le_div_iff₀ hpos] at hr'
+  exact hr'
 
-/-- **maximality.** The search runs from the top of the grid: every grid percentile above the chosen one fails the test -/
+/-- **maximality.** The search runs from the top of the grid: every grid percentile above the chosen one fails the test;
+    the chosen one passes it or is the bottom of the grid -/
 theorem C20_trim_maximal {σ : Type} (samples : List σ) (w : List ℝ) (e : ℝ) (bins : Nat)
     (s' : List σ) (w' : List ℝ) (h : trim samples w e bins = some (s', w')) :
     ∃ j st, j < bins ∧
       step (normalise w) (sortAsc (normalise w)) (ess w) (linspace0_99 bins j) = some st ∧
-      s' = filterMask samples st.mask ∧ w' = st.wt ∧ e ≤ st.ratio ∧
+      s' = filterMask samples st.mask ∧ w' = st.wt ∧ (e ≤ st.ratio ∨ j = 0) ∧
       ∀ k, j < k → k < bins →
         ∃ st', step (normalise w) (sortAsc (normalise w)) (ess w) (linspace0_99 bins k) = some st' ∧ st'.ratio < e := by
   obtain ⟨j, st, hb, hj, hsr, hs', hw'⟩ := trim_some samples w e bins s' w' h
   obtain ⟨_, hstep, hr, hmax⟩ := search_spec _ _ _ _ _ _ _ _ hsr
   exact ⟨j, st, by omega, hstep, hs', hw', hr, fun k hk1 hk2 => hmax k hk1 (by omega)⟩
 
-/-- **termination.** For `ess ≤ 1` the loop stops at the latest at grid index 0: percentile 0 is the minimum, the mask
-    keeps everything and the ratio is exactly 1.  So the index never goes negative (no wrap-around to `percentiles[-1]`). -/
-theorem C20_trim_terminates {σ : Type} (samples : List σ) (w : List ℝ) (e : ℝ) (bins : Nat)
-    (h0 : ∀ x ∈ w, 0 ≤ x) (hs : 0 < w.sum) (hb : 0 < bins) (he : e ≤ 1) :
+/-- **termination, any requested fraction.** The loop breaks at grid index 0 at the latest (`or i == 0`), and every pass is
+    defined (the percentile of a non-empty array exists), so a result is always returned: the index never goes negative. -/
+theorem C20_trim_terminates_any {σ : Type} (samples : List σ) (w : List ℝ) (e : ℝ) (bins : Nat)
+    (h0 : ∀ x ∈ w, 0 ≤ x) (hs : 0 < w.sum) (hb : 0 < bins) :
     ∃ r, trim samples w e bins = some r := by
   obtain ⟨h1, hnn, hq, hne⟩ := wn_facts w h0 hs
   have hne' : sortAsc (normalise w) ≠ [] := by
@@ -592,27 +618,38 @@ theorem C20_trim_terminates {σ : Type} (samples : List σ) (w : List ℝ) (e : 
       intro k hk
       obtain ⟨θ, hθ, _⟩ := percentile_spec _ hsorted hne' (linspace0_99 bins k) (linspace_range bins k (by omega)).1
       unfold step; rw [hθ]; exact ⟨_, rfl⟩)
-    (by
-      intro s hstep
-      obtain ⟨hp, hm, hw, hratio⟩ := step_spec _ _ _ _ _ hstep
-      rw [linspace_zero] at hp
-      obtain ⟨θ, hθ, hmin⟩ := percentile_zero _ hsorted hne'
-      rw [hp] at hθ; injection hθ with hθ
-      have hmask : s.mask = (normalise w).map (fun _ => true) := by
-        rw [hm]
-        apply List.map_congr_left
-        intro x hx
-        rw [ScReal.le_def, hθ]
-        exact hmin x ((sortAsc_perm _).mem_iff.mpr hx)
-      rw [hmask, filterMask_all_true, normalise_of_sum_one _ h1] at hw
-      rw [hratio, hw]
-      simp only [ScReal.div_def, ScReal.one_def]
-      rw [div_self (by positivity)]
-      exact he)
   refine ⟨(filterMask samples r.2.mask, r.2.wt), ?_⟩
   unfold trim trimStop
   simp only [hb.ne', if_false]
   rw [hr]; rfl
+
+/-- **termination** (signature kept for importers; `e ≤ 1` is no longer needed since the `or i == 0` stop) -/
+theorem C20_trim_terminates {σ : Type} (samples : List σ) (w : List ℝ) (e : ℝ) (bins : Nat)
+    (h0 : ∀ x ∈ w, 0 ≤ x) (hs : 0 < w.sum) (hb : 0 < bins) (he : e ≤ 1) :
+    ∃ r, trim samples w e bins = some r :=
+  have _ := he
+  C20_trim_terminates_any samples w e bins h0 hs hb
+
+/-- when every pass above grid index 0 fails the test, the loop returns every sample with the normalised weights -/
+theorem C20_trim_bottom {σ : Type} (samples : List σ) (w : List ℝ) (e : ℝ) (bins : Nat)
+    (h0 : ∀ x ∈ w, 0 ≤ x) (hs : 0 < w.sum) (hl : samples.length = w.length)
+    (s' : List σ) (w' : List ℝ) (h : trim samples w e bins = some (s', w'))
+    (hfail : ∀ k, 0 < k → k < bins → ∀ st, step (normalise w) (sortAsc (normalise w)) (ess w) (linspace0_99 bins k) = some st →
+      st.ratio < e) : s' = samples ∧ w' = normalise w := by
+  obtain ⟨j, st, hj, hstep, hs', hw', hr, _⟩ := C20_trim_maximal samples w e bins s' w' h
+  by_cases hj0 : j = 0
+  · subst hj0
+    obtain ⟨hm, hwt, _⟩ := step_zero w h0 hs bins st hstep
+    refine ⟨?_, by rw [hw', hwt]⟩
+    rw [hs', hm]
+    have hlen : (normalise w).length = samples.length := by rw [normalise_def, List.length_map, hl]
+    have : (normalise w).map (fun _ => true) = samples.map (fun _ => true) := by
+      simp only [List.map_const', hlen]
+    rw [this, filterMask_all_true]
+  · exfalso
+    rcases hr with hr | hr
+    · exact absurd (hfail j (by omega) hj st hstep) (not_lt.mpr hr)
+    · exact hj0 hr
 
 /-! ### non-vacuity: a run of the model on concrete numbers -/
 
@@ -630,7 +667,7 @@ example : ∃ s' w', trim ["a", "b", "c"] [(1 : ℝ), 1, 2] 0.9 2 = some (s', w'
   have hs : (0 : ℝ) < [(1 : ℝ), 1, 2].sum := by norm_num
   obtain ⟨⟨s', w'⟩, h⟩ := C20_trim_terminates ["a", "b", "c"] [(1 : ℝ), 1, 2] 0.9 2 h0 hs (by norm_num) (by norm_num)
   obtain ⟨θ, _, _, _, hm, _, _⟩ := C20_trim_upper_set _ _ _ _ _ _ h
-  exact ⟨s', w', h, C20_trim_normalised _ _ _ _ h0 hs _ _ h, C20_trim_ess _ _ _ _ h0 hs _ _ h, θ, hm⟩
+  exact ⟨s', w', h, C20_trim_normalised _ _ _ _ h0 hs _ _ h, C20_trim_ess _ _ _ _ h0 hs (by norm_num) _ _ h, θ, hm⟩
 
 example : sortAsc [(3 : ℝ), 1, 2] = [1, 2, 3] := by
   have hp := sortAsc_perm [(3 : ℝ), 1, 2]
